@@ -8,7 +8,7 @@ S=$(mktemp -d /tmp/reftry.XXXXXX)
 run_one() {
   d=$1; S=$2
   n=$(basename $d .diff); tag=$(basename $(dirname $(dirname $d)))_$n
-  W=$S/$tag; mkdir -p $W; cp -r /repo/txdbus $W/txdbus
+  W=$S/$tag; mkdir -p $W; cp -r ${BASE:-/repo}/txdbus $W/txdbus
   if ! (cd $W && patch -s -p1 < $d >/dev/null 2>&1); then echo "$tag: PATCH-DOES-NOT-APPLY"; rm -rf $W; return; fi
   for C in C01 C02 C03 C04 C05 C06 C07 C08 C09 C10 C11 C12 C13 C14 C15 C16 C17 C18 C19 C20; do
     out=$(cd /verif && TXSA_EVIDENCE_OUT=$W/ev_$C.json ./check $C --src $W 2>&1 | grep -v conda)
